@@ -34,6 +34,27 @@ func findings(path string) {
 		line("c20:kubevirt-ignores-outbound-exclusions", a.redirect == 15001 && b.redirect == 15001 && d.redirect == 15001,
 			"traffic_entering_on_a_KUBE_VIRT_INTERFACES_interface_is_redirected_to_the_outbound_port_although_its_destination_range/port_is_excluded_or_loopback")
 	}
+	// the proxy's own delivery (TPROXY mode: uid 0 / gid 1337, original source, mark 1337) looped back
+	dl := func(dport uint64) packet {
+		return packet{hook: "OUTPUT", proto: "tcp", src: netip.MustParseAddr("8.8.8.8"), dst: netip.MustParseAddr("10.1.2.3"),
+			sport: 40000, dport: dport, outIf: "lo", uid: "0", gid: "1337", ctstate: "NEW", mark: 1337}
+	}
+	d := defaultRaw()
+	d.Mode, d.InboundInclude, d.OutInclude, d.RedirectDNS, d.CaptureAllDNS = "TPROXY", "*", "*", true, true
+	if res := runReal(d); res.status == "ok" {
+		l := loadRuleset(res)
+		a, b := l.fate(dl(53)), l.fate(dl(8080))
+		line("c20:gid-dns53-delivery-loop", a.redirect == 15006 && b.redirect < 0,
+			"TPROXY_mode+DNS_capture:_the_proxy's_own_delivery_(uid_0,_gid_1337,_mark_1337,_lo)_to_podIP:53/tcp_is_redirected_back_to_its_inbound_port_15006_by_the_GID_block_(which_lacks_the_port-53_exemption_of_the_UID_block)")
+	}
+	d = defaultRaw()
+	d.Mode, d.InboundInclude, d.OutInclude = "TPROXY", "*", "127.1.2.3/32,10.0.0.0/8"
+	if res := runReal(d); res.status == "ok" {
+		l := loadRuleset(res)
+		a := l.fate(dl(8080))
+		line("c20:loopback-included-delivery-loop", a.redirect == 15006,
+			"TPROXY_mode+a_loopback_range_in_OUTBOUND_IP_RANGES_INCLUDE:_no_bypass_rules_are_emitted_and_every_delivery_of_the_uid-0/gid-1337_proxy_on_lo_is_redirected_back_to_15006")
+	}
 	c.Mode = "TPROXY"
 	res = runReal(c)
 	if res.status == "ok" {
